@@ -59,6 +59,19 @@ func c09Overlap(t *testing.T, idx int, seed uint64) {
 			// a broker may close the older connection when the identifier is taken over; then that end is the one examined
 			out.Count("c09.overlap_takeover_closed_older", 1)
 		}
+		// in two cases of three one of the two subscribes while both are there: with CleanSession=0 on
+		// both the filter enters the session they share, although only one of them holds it in the tree
+		if x := r.Intn(3); x > 0 && !A.Closed() && !B.Closed() {
+			c := B
+			if x == 2 {
+				c = A
+			}
+			if sa, _ := c.subscribeB([]string{fmt.Sprintf("ov/%d", x)}, []byte{1}); sa == nil {
+				fail("c09:suback", "subscription on one of two connections with one client id")
+				return
+			}
+			out.Count("c09.overlap_subscribed_while_shared", 1)
+		}
 		end := func(c *bclient, how string) {
 			switch how {
 			case "abrupt":
